@@ -19,7 +19,7 @@ Inductive fkind := FInt | FStr | FTup | FSub (alts : list alt) (dkey : string).
 Record fdecl := mkf { f_name : string; f_kind : fkind; f_default : string }.
 Record dcls := mkdc { d_cls : string; d_fields : list fdecl }.
 Definition add := (dcls * string)%type.                        (* add_arguments(class, dest) *)
-Record pdef := mkdef { df_cfg : cfg; df_cfgarg : bool; df_adds : list add }.
+Record pdef := mkdef { df_cfg : cfg; df_cr : crmode; df_cfgarg : bool; df_adds : list add }.
 
 (* ---------- regenerated behaviour switches ---------- *)
 Record facts := mkfacts {
@@ -27,7 +27,9 @@ Record facts := mkfacts {
   cfgarg_every_parse : bool;      (* the help-only --config_path argument is added unconditionally on every parse *)
   setup_cached : bool;            (* set-up runs once (guarded by _preprocessing_done) *)
   tuple_counter_persists : bool;  (* the tuple converter's call counter lives as long as the set-up *)
-  defaults_persist : bool         (* set_defaults(config file) writes onto the wrappers / constructor_arguments for good *)
+  defaults_persist : bool;        (* set_defaults(config file) writes onto the wrappers / constructor_arguments for good *)
+  done_after_work : bool          (* `_preprocessing_done = True` is the LAST statement of _preprocessing: a set-up that raises
+                                     half-way is redone by the next call (false: the flag is set first and the parser stays half-built) *)
 }.
 
 (* ---------- small association lists ---------- *)
@@ -244,12 +246,26 @@ Definition field_acts (g : cfg) (chosen live : kv) (dest : string) (fd : fdecl) 
 Definition build (g : cfg) (adds : list add) (chosen live : kv) : list action :=
   flat_map (fun ad : add => flat_map (field_acts g chosen live (snd ad)) (d_fields (fst ad))) adds.
 
+(* ConflictResolution.NONE: an option string held by two fields is a ConflictResolutionError, raised by
+   resolve_and_flatten before the subgroup choice and by the resolver's second pass after it.  (AUTO never meets a
+   clash in the histories: field names are disjoint unless the parser is in NONE mode.) *)
+Definition crmode_eqb (a b : crmode) : bool :=
+  match a, b with CRNone, CRNone | CRExplicit, CRExplicit | CRAuto, CRAuto => true | _, _ => false end.
+Definition top_opts (g : cfg) (adds : list add) : list string :=
+  flat_map (fun ad : add => flat_map (fun fd => option_strings g (fw_of [snd ad] (f_name fd))) (d_fields (fst ad))) adds.
+Definition clash (cr : crmode) (opts : list string) : bool := crmode_eqb cr CRNone && negb (str_nodupb opts).
+Definition acts_opts (acts : list action) : list string := flat_map ac_opts acts.
+
 Record setup := mksu { su_acts : list action; su_chosen : kv; su_fr : kv; su_n : nat }.
-Definition do_setup (g : cfg) (adds : list add) (live : kv) (args : list string) : res setup :=
+Definition do_setup (g : cfg) (cr : crmode) (adds : list add) (live : kv) (args : list string) : res setup :=
+  if clash cr (top_opts g adds) then Err CRE else
   match choose g adds args with
   | Err e => Err e
-  | Ok ch => Ok (mksu (build g adds ch live) ch live (List.length adds))
+  | Ok ch => if clash cr (acts_opts (build g adds ch live)) then Err CRE
+             else Ok (mksu (build g adds ch live) ch live (List.length adds))
   end.
+(* what a set-up that raised leaves behind when the done-flag was set first: marked done, nothing registered *)
+Definition stuck_setup (live : kv) : setup := mksu [] [] live 0.
 
 (* ---------- after argparse: _postprocessing ---------- *)
 Definition HELP_ACT : action := mkact ["-h"; "--help"] "help" KHelp "".
@@ -293,10 +309,10 @@ Definition postprocess (su : setup) (adds : list add) (live : kv) (ns : kv) (ext
 
 (* ---------- the machine ---------- *)
 Record pstate := mkp {
-  p_cfg : cfg; p_cfgarg : bool; p_adds : list add;
+  p_cfg : cfg; p_cr : crmode; p_cfgarg : bool; p_adds : list add;
   p_setup : option setup; p_cnt : counters; p_added : bool; p_live : kv }.
-Definition new_p (d : pdef) : pstate := mkp (df_cfg d) (df_cfgarg d) (df_adds d) None [] false [].
-Definition def_of (p : pstate) : pdef := mkdef (p_cfg p) (p_cfgarg p) (p_adds p).
+Definition new_p (d : pdef) : pstate := mkp (df_cfg d) (df_cr d) (df_cfgarg d) (df_adds d) None [] false [].
+Definition def_of (p : pstate) : pdef := mkdef (p_cfg p) (p_cr p) (p_cfgarg p) (p_adds p).
 
 Record state := mkst { st_g : cfg; st_slots : list (nat * pstate) }.
 Fixpoint slot_get (l : list (nat * pstate)) (i : nat) : option pstate :=
@@ -308,14 +324,15 @@ Fixpoint slot_set (l : list (nat * pstate)) (i : nat) (p : pstate) : list (nat *
   end.
 
 Inductive op :=
-| Construct (i : nat) (c : cfg) (cfgarg : bool)
+| Construct (i : nat) (c : cfg) (cr : crmode) (cfgarg : bool)
 | AddArgs (i : nat) (d : dcls) (dest : string)
 | Parse (i : nat) (argv : list string)
 | PrintHelp (i : nat)
 | FormatHelp (i : nat).
 
 Definition vals := res kv.
-Inductive obs := ONoParser | ONone | ODone | OParse (r : vals).
+(* OFail: print_help (its set-up) raised *)
+Inductive obs := ONoParser | ONone | ODone | OParse (r : vals) | OFail (e : err).
 
 Definition init_cfg : cfg := mkcfg DUnderscore GFlat NDefault.      (* the class attributes' initial values *)
 Definition init : state := mkst init_cfg [].
@@ -326,6 +343,9 @@ Section Machine.
 
   Definition cached (p : pstate) : option setup :=
     match p_setup p with Some su => if setup_cached f then Some su else None | None => None end.
+  (* a set-up that raised: the parser is as it was, unless the done-flag had been set before the work *)
+  Definition after_failure (p : pstate) (live : kv) : option setup :=
+    if done_after_work f then p_setup p else Some (stuck_setup live).
   Definition setup_g (g : cfg) (p : pstate) : cfg :=
     match cached p with Some _ => g | None => if reasserts f then p_cfg p else g end.
 
@@ -338,18 +358,18 @@ Section Machine.
   Definition parse_step (g : cfg) (p : pstate) (argv : list string) : cfg * pstate * vals :=
     let cnt0 := if tuple_counter_persists f then p_cnt p else [] in
     let '(args, (rl, live1)) := prep p argv in
-    let p1 := mkp (p_cfg p) (p_cfgarg p) (p_adds p) (p_setup p) cnt0 (p_added p) live1 in
+    let p1 := mkp (p_cfg p) (p_cr p) (p_cfgarg p) (p_adds p) (p_setup p) cnt0 (p_added p) live1 in
     match rl with
     | Err e => (g, p1, Err e)
     | Ok _ =>
         if p_cfgarg p && p_added p && cfgarg_every_parse f then (g, p1, Err (Raise "ArgumentError")) else
         let added := p_added p || p_cfgarg p in
         let g' := setup_g g p in
-        match (match cached p with Some su => Ok su | None => do_setup g' (p_adds p) live1 args end) with
-        | Err e => (g', mkp (p_cfg p) (p_cfgarg p) (p_adds p) (p_setup p) cnt0 added live1, Err e)
+        match (match cached p with Some su => Ok su | None => do_setup g' (p_cr p) (p_adds p) live1 args end) with
+        | Err e => (g', mkp (p_cfg p) (p_cr p) (p_cfgarg p) (p_adds p) (after_failure p live1) cnt0 added live1, Err e)
         | Ok su =>
             let (r, cnt1) := parse_acts true (main_acts added su) cnt0 args in
-            (g', mkp (p_cfg p) (p_cfgarg p) (p_adds p) (Some su) cnt1 added live1,
+            (g', mkp (p_cfg p) (p_cr p) (p_cfgarg p) (p_adds p) (Some su) cnt1 added live1,
              match r with
              | Err e => Err e
              | Ok (ns, extras) => postprocess su (p_adds p) live1 ns extras
@@ -358,21 +378,22 @@ Section Machine.
     end.
 
   (* print_help(): _preprocessing(args=[]) then argparse's print_help *)
-  Definition help_step (g : cfg) (p : pstate) : cfg * pstate :=
+  Definition help_step (g : cfg) (p : pstate) : cfg * pstate * obs :=
     let g' := setup_g g p in
-    match (match cached p with Some su => Ok su | None => do_setup g' (p_adds p) (p_live p) [] end) with
-    | Err _ => (g', p)
-    | Ok su => (g', mkp (p_cfg p) (p_cfgarg p) (p_adds p) (Some su) (p_cnt p) (p_added p) (p_live p))
+    match (match cached p with Some su => Ok su | None => do_setup g' (p_cr p) (p_adds p) (p_live p) [] end) with
+    | Err e => (g', mkp (p_cfg p) (p_cr p) (p_cfgarg p) (p_adds p) (after_failure p (p_live p)) (p_cnt p) (p_added p) (p_live p),
+                OFail e)
+    | Ok su => (g', mkp (p_cfg p) (p_cr p) (p_cfgarg p) (p_adds p) (Some su) (p_cnt p) (p_added p) (p_live p), ODone)
     end.
 
   Definition step (s : state) (o : op) : state * obs :=
     match o with
-    | Construct i c cfgarg => (mkst c (slot_set (st_slots s) i (new_p (mkdef c cfgarg []))), ONone)
+    | Construct i c cr cfgarg => (mkst c (slot_set (st_slots s) i (new_p (mkdef c cr cfgarg []))), ONone)
     | AddArgs i d dest =>
         match slot_get (st_slots s) i with
         | None => (s, ONoParser)
         | Some p => (mkst (st_g s) (slot_set (st_slots s) i
-                       (mkp (p_cfg p) (p_cfgarg p) (p_adds p ++ [(d, dest)])%list (p_setup p) (p_cnt p) (p_added p) (p_live p))),
+                       (mkp (p_cfg p) (p_cr p) (p_cfgarg p) (p_adds p ++ [(d, dest)])%list (p_setup p) (p_cnt p) (p_added p) (p_live p))),
                      ODone)
         end
     | Parse i argv =>
@@ -383,7 +404,7 @@ Section Machine.
     | PrintHelp i =>
         match slot_get (st_slots s) i with
         | None => (s, ONoParser)
-        | Some p => let (g', p') := help_step (st_g s) p in (mkst g' (slot_set (st_slots s) i p'), ODone)
+        | Some p => let '(g', p', o) := help_step (st_g s) p in (mkst g' (slot_set (st_slots s) i p'), o)
         end
     | FormatHelp i =>
         match slot_get (st_slots s) i with
